@@ -58,6 +58,7 @@ type Method struct {
 	NullCompare bool   // `return p == null;` — mentions the literal, returns a boolean
 	NullDecoy   bool   // the body uses the null literal outside return statements
 	Body        []string
+	OverloadOf  string // this method is a second declaration of that name (one more parameter)
 
 	// planted unqualified calls of methods of the same class (first lines of the body)
 	Calls         []PlantedCall
@@ -141,6 +142,9 @@ type Opts struct {
 	NullCompare bool
 	// DefaultPkg lets some files have no package declaration.
 	DefaultPkg bool
+	// Overloads lets a class declare a second method with the name of another one and one more parameter.
+	// The overload is a plain int method: never nullable (two nullable overloads of one name are out of scope).
+	Overloads bool
 }
 
 type gen struct {
@@ -289,6 +293,19 @@ func (g *gen) fillClass(c *Class) {
 		}
 		g.fillMethod(c, m, static, abstract)
 		c.Methods = append(c.Methods, m)
+	}
+	if g.o.Overloads && len(c.Methods) > 0 && r.Chance(1, 3) {
+		t := c.Methods[r.Intn(len(c.Methods))]
+		if len(t.Params) != 4 {
+			ov := &Method{Name: t.Name, OverloadOf: t.Name, Ret: "int", Static: t.Static || c.Kind == KindUtil,
+				Params: [][2]string{{"Object", "p"}, {"boolean", "flag"}, {"int", "n"}, {"String", "extra"}}, Body: []string{"return n + 1;"}}
+			ov.Mods = []string{"public"}
+			if ov.Static {
+				ov.Mods = append(ov.Mods, "static")
+			}
+			ov.Head = append(ov.Head, ov.Mods...)
+			c.Methods = append(c.Methods, ov)
+		}
 	}
 	g.plantCalls(c)
 	need := map[string]bool{}
@@ -507,7 +524,10 @@ func (g *gen) plantCalls(c *Class) {
 		var lines []string
 		call := func(t *Method) string {
 			args := "p, flag, n"
-			if len(t.Params) > 3 {
+			switch len(t.Params) {
+			case 4:
+				args += ", \"x\"" // the overload with one more parameter
+			case 5:
 				args += ", \"a\", \"b\""
 			}
 			m.Calls = append(m.Calls, PlantedCall{Callee: t.Name, BodyLine: len(lines)})
@@ -748,7 +768,13 @@ func SelfCheck(p *Project) error {
 			return fmt.Errorf("%s: kind %s disagrees with the name", c.Name, c.Kind)
 		}
 		for _, m := range c.Methods {
-			if strings.Count(c.Text, " "+m.Ret+" "+m.Name+"(") != 1 {
+			same := 0
+			for _, o := range c.Methods {
+				if o.Name == m.Name && o.Ret == m.Ret {
+					same++
+				}
+			}
+			if strings.Count(c.Text, " "+m.Ret+" "+m.Name+"(") != same {
 				return fmt.Errorf("%s.%s is not declared exactly once", c.Name, m.Name)
 			}
 			hasStatic := false
